@@ -332,6 +332,7 @@ func checkC16Upgrade(c HSPath, o *Obs) error {
 			tr.SetReadDeadline(time.Now().Add(time.Hour))
 		}
 		tr.SetWriteFault(fault)
+		tr.HonourWriteDeadline = true // a deadline armed for the 101 that lies in the past fails the write, as on a real connection
 		w := &fakeRW{conn: tr, brw: bufio.NewReadWriter(br, bufio.NewWriterSize(tr, 4096))}
 		if c.HijackFails {
 			w.hijackErr = errors.New("hijack refused")
